@@ -248,7 +248,7 @@ fn gen_vec<T>(r: &mut Rng, max: u64, mut f: impl FnMut(&mut Rng) -> T) -> Vec<T>
 // ------------------------------------------------------------------------------------------------
 
 pub fn gen_typed(r: &mut Rng) -> TV {
-    match r.below(45) {
+    match r.below(49) {
         0 => TV::Unit,
         1 => TV::I32(gen_i32(r)),
         2 => TV::I64(gen_i64(r)),
@@ -321,6 +321,16 @@ pub fn gen_typed(r: &mut Rng) -> TV {
             TV::AttrMap { m, n: gen_i32(r) }
         }
         42 => TV::AttrOpt { o: if r.chance(1, 3) { None } else { Some(gen_i32(r)) }, n: gen_i32(r) },
+        44 => TV::AttrTuple { a: gen_i32(r), b: gen_string(r), n: gen_i32(r) },
+        45 => TV::BodyField { h: gen_i32(r), b: gen_vec(r, 4, gen_i32) },
+        46 => TV::OptStruct { o: if r.chance(1, 3) { None } else { Some((gen_i32(r), gen_string(r), if r.chance(1, 2) { None } else { Some(gen_i64(r)) })) }, n: gen_i32(r) },
+        47 => {
+            let mut m = BTreeMap::new();
+            for _ in 0..r.below(4) {
+                m.insert(gen_string(r), gen_vec(r, 3, gen_i32));
+            }
+            TV::MapVec { m }
+        }
         43 => TV::HdrBodyVec { v: gen_vec(r, 4, gen_i32), n: gen_i32(r) },
         38 => TV::AttrRows { rows: gen_vec(r, 3, |r| gen_vec(r, 3, gen_i32)), n: gen_i32(r) },
         37 => TV::Timestamp(match r.below(4) {
